@@ -38,11 +38,18 @@ func cleanupOrderRule(c *core.Ctx, r *core.Report) {
 	// wrapper type around the stack (`stack.at(i)()`); returns the indexing with the frame it sits in
 	cleanupElem := func(e an.Event) (*ssa.IndexAddr, *an.Frame) {
 		call := e.Call()
-		if call == nil || an.Callee(call) != nil || call.Common().IsInvoke() {
+		if call == nil || call.Common().IsInvoke() {
 			return nil, nil
 		}
-		rv := an.EventFV(e, call.Common().Value)
-		if _, isAcc := call.Common().Value.(*ssa.Call); isAcc {
+		val := call.Common().Value
+		if h, ok := hostHelpers(curCtx)[an.Callee(call)]; ok && h.param < len(call.Common().Args) {
+			// the cleanup is handed to a guarding helper that calls it
+			val = call.Common().Args[h.param]
+		} else if an.Callee(call) != nil {
+			return nil, nil
+		}
+		rv := an.EventFV(e, val)
+		if _, isAcc := val.(*ssa.Call); isAcc {
 			rv = rv.Resolve(nil)
 		}
 		v := rv.V
